@@ -169,6 +169,40 @@ def main():
         ck.fail("C08-dead-heat-count", "number_of_dead_heat_winners is not (winners in the book if more than declared)", {"row": drow[i]})
     for i in pm[:2]:
         ck.fail("C08-profit", "profit after process_closed_market differs from the exchange's rules", {"row": prow[i]})
+    # live / paper trading: the cleared-market summary of a client in a market counts exactly that client's matched orders of THAT market, also
+    # after the paper-trading order stream has polled the client's orders over several open markets
+    lcases = []
+    for _ in range(60 if thorough else 20):
+        mids = ["1.101", "1.102"]
+        steps = [["book", m, "OPEN"] for m in mids]
+        k = 0
+        for _ in range(rng.randrange(4, 10)):
+            k += 1
+            nm = "o%d" % k
+            mid = rng.choice(mids)
+            steps.append(["place", mid, nm, 0, rng.choice([101, 202]), rng.choice(["BACK", "LAY"]), 200, rng.choice([500, 1000])])
+            steps.append(["ack", nm, "B%d" % k])
+            if rng.random() < 0.7:
+                steps.append(["stream", [{"ref": nm, "market": mid, "bet": "B%d" % k, "status": rng.choice(["EXECUTABLE", "EXECUTION_COMPLETE"]), "matched": rng.choice([200, 500]), "remaining": 0}]])
+            if rng.random() < 0.5:
+                steps.append(["poll"])
+        steps.append(["poll"])
+        lcases.append({"strategies": 1, "steps": steps})
+    louts = run_impl_parallel("livelib", [{"job": "orders", "cases": ch} for ch in chunked(lcases, 10)], timeout=1800)
+    limpl = [r for o in louts for r in o["out"]]
+    lbad = []
+    for i, (c, r) in enumerate(zip(lcases, limpl)):
+        for si, ob in enumerate(r):
+            for mid, v in ob["blotters"].items():
+                if v["cleared"][0][0] != v["matched_by_client"][0][0] or abs(v["cleared"][0][1] - v["matched_by_client"][0][1]) > 0.005:
+                    lbad.append((i, "step %d: the cleared summary of market %s counts %s bets / profit %s, the client has %s matched orders there / profit %s" % (si, mid, v["cleared"][0][0], v["cleared"][0][1], v["matched_by_client"][0][0], v["matched_by_client"][0][1])))
+                    break
+            else:
+                continue
+            break
+    ck.family("cleared_summary_after_order_stream_polls", len(lcases), len(lcases), [], sorted({i for i, _ in lbad}), dist={"polls": sum(1 for c in lcases for s in c["steps"] if s[0] == "poll")})
+    for i, why in lbad[:2]:
+        ck.fail("C08-cleared-summary", why, {"case": lcases[i], "how": "harness/impl/livelib.py job orders (poll = SimulatedOrderStream._get_current_orders)"})
     return ck.finish("whole simulated runs (1-3 strategies, 1-2 clients with different commission rates, markets closed once / repeatedly with amended results / closed-reopened-closed): order profit and per-client cleared summary re-computed at every close; SimulatedOrder.profit on real orders (both sides, plain/each-way/line, every result, dead heats 1-7, divisors, line results below/equal/above, reduced prices) vs the Coq model (both tie-breaks) and an independent exact-rational calculator; back/lay antisymmetry on identical fills; Blotter.process_closed_market + Market.cleared on real markets with 1-2 clients and commission rates; distinct = distinct case rows")
 
 
